@@ -186,9 +186,11 @@ func inFrameCell(items []modItem, k, r string) string {
 		case "star":
 			ds = append(ds, guard(it, sx("within", r, it.ref)))
 		case "type":
+			// the matched ancestor is a whole allocated object of the type (a field path such as a
+			// slice header has no type of its own)
 			ds = append(ds, guard(it, sOr(
-				sAnd(sNot(sEq(sx("parent", r), "null")), sEq(sx("tyof", sx("parent", r)), it.ref)),
-				sAnd(sNot(sEq(sx("parent", sx("parent", r)), "null")), sEq(sx("tyof", sx("parent", sx("parent", r))), it.ref)))))
+				sAnd(sx("(_ is obj)", sx("parent", r)), sEq(sx("tyof", sx("parent", r)), it.ref)),
+				sAnd(sx("(_ is obj)", sx("parent", sx("parent", r))), sEq(sx("tyof", sx("parent", sx("parent", r))), it.ref)))))
 		case "elems":
 			if !it.elemInt {
 				for _, rr := range []string{r, sx("parent", r), sx("parent", sx("parent", r))} {
@@ -390,7 +392,8 @@ func (r *FnRun) checkFrameCall(st *State, site ssa.Instruction, items []modItem,
 		}
 		switch it.kind {
 		case "cell":
-			goal = sOr(sx(">=", sx("rootid", it.ref), r.alloc0), inFrameCell(r.frame, it.heapK, it.ref))
+			// a cell of the nil object is no cell (the callee would have panicked before writing it)
+			goal = sOr(sx(">=", sx("rootid", it.ref), r.alloc0), inFrameCell(r.frame, it.heapK, it.ref), sAnd(sx("(_ is fld)", it.ref), sEq(sx("parent", it.ref), "null")))
 		case "arr":
 			goal = sOr(sx(">=", sx("rootid", it.ref), r.alloc0), inFrameArr(r.frame, it.ref, "0"))
 		case "sub", "star":
